@@ -190,12 +190,92 @@ def _container(pl, container):
     return arr
 
 
-def real_particles(parts, n, m, wq, via="eccentricity", container="list"):
+# ------------------------------------------------------------------ call forms
+# the DOCUMENTED parameter order and defaults of the public calls (docstrings / signatures at HEAD); every call
+# the harness issues goes through `_invoke` in one of several equivalent forms, so that a signature change that
+# re-binds positional arguments or alters a default shows as a wrong result
+DOC_ORDER = {
+    "__init__": ["event_data"],
+    "set_event_data": ["event_data"],
+    "eccentricity": ["harmonic_n", "harmonic_m", "weight_quantity"],
+    "eccentricity_from_particles": ["harmonic_n", "harmonic_m", "weight_quantity"],
+    "eccentricity_from_lattice": ["harmonic_n", "harmonic_m"],
+}
+DOC_DEFAULTS = {"harmonic_m": None, "weight_quantity": "energy"}
+FORMS = ["pos", "kw", "mixed", "omit-kw", "omit-pos"]
+
+
+def _bind(method, values, form):
+    """(args, kwargs) for `method` carrying `values` (name -> value) in the given call form"""
+    names = DOC_ORDER[method]
+    vals = [values[k] for k in names]
+
+    def is_default(k):
+        return k in DOC_DEFAULTS and type(values[k]) is type(DOC_DEFAULTS[k]) and values[k] == DOC_DEFAULTS[k]
+    if form == "kw":
+        return [], dict(zip(names, vals))
+    if form == "mixed":
+        return vals[:1], dict(zip(names[1:], vals[1:]))
+    if form == "omit-kw":  # defaults left out, the rest by keyword
+        return vals[:1], {k: values[k] for k in names[1:] if not is_default(k)}
+    if form == "omit-pos":  # positional, trailing defaults left out
+        keep = len(names)
+        while keep > 1 and is_default(names[keep - 1]):
+            keep -= 1
+        return vals[:keep], {}
+    return vals, {}
+
+
+def _invoke(obj, method, form, **values):
+    args, kw = _bind(method, values, form or "pos")
+    return getattr(obj, method)(*args, **kw)
+
+
+def _construct(data, form="pos"):
     from sparkx.EventCharacteristics import EventCharacteristics
-    ec = EventCharacteristics(_container(_particles(parts), container))
-    if via == "eccentricity":
-        return _canon(lambda: ec.eccentricity(n, m, wq))
-    return _canon(lambda: ec.eccentricity_from_particles(n, m, wq))
+    return EventCharacteristics(event_data=data) if form in ("kw", "omit-kw") else EventCharacteristics(data)
+
+
+def _ecc(obj, lat, via, form, n, m, wq):
+    """one eccentricity call in the requested form.  via: 'eccentricity' | 'direct' (the variant's own method) |
+    'cross' (the OTHER variant's method: expected to be rejected)"""
+    if via in ("direct", "cross"):
+        use_lattice = lat if via == "direct" else not lat
+        if use_lattice:
+            return _invoke(obj, "eccentricity_from_lattice", form, harmonic_n=n, harmonic_m=m)
+        return _invoke(obj, "eccentricity_from_particles", form, harmonic_n=n, harmonic_m=m, weight_quantity=wq)
+    return _invoke(obj, "eccentricity", form, harmonic_n=n, harmonic_m=m, weight_quantity=wq)
+
+
+def _canon_strict(fn, strict=False):
+    """like `_canon`, also telling whether the call RAISED.  strict: warnings are errors (numpy's too), the way a
+    caller running with -W error sees them, so a call that warns fails at that point of its work."""
+    raised = True
+    try:
+        if strict:
+            with warnings.catch_warnings(), np.errstate(all="warn"):
+                warnings.simplefilter("error")
+                r = complex(fn())
+        else:
+            with warnings.catch_warnings(), np.errstate(all="ignore"):
+                warnings.simplefilter("ignore")
+                r = complex(fn())
+        raised = False
+    except ValueError:
+        return ("err", "value"), raised
+    except ZeroDivisionError:
+        return ("err", "zerodiv"), raised
+    except Exception as e:
+        return ("err", "other:" + type(e).__name__), raised
+    if not (math.isfinite(r.real) and math.isfinite(r.imag)):
+        return ("err", "zerodiv"), raised
+    return ("ok", r), raised
+
+
+def real_particles(parts, n, m, wq, via="eccentricity", container="list", form=None):
+    form = form or "pos"
+    ec = _construct(_container(_particles(parts), container), form)
+    return _canon(lambda: _ecc(ec, False, "direct" if via != "eccentricity" else via, form, n, m, wq))
 
 
 def _lattice(ext, shape, grid, layout="C", axes="C"):
@@ -215,10 +295,10 @@ def logical_grid(lat):
     return [[[float(lat.grid_[i, j, l]) for l in range(sh[2])] for j in range(sh[1])] for i in range(sh[0])]
 
 
-def real_lattice(ext, shape, grid, n, m, layout="C", axes="C"):
-    from sparkx.EventCharacteristics import EventCharacteristics
-    ec = EventCharacteristics(_lattice(ext, shape, grid, layout, axes))
-    return _canon(lambda: ec.eccentricity(n, m))
+def real_lattice(ext, shape, grid, n, m, layout="C", axes="C", form=None, via="eccentricity"):
+    form = form or "pos"
+    ec = _construct(_lattice(ext, shape, grid, layout, axes), form)
+    return _canon(lambda: _ecc(ec, True, via, form, n, m, "energy"))
 
 
 # ------------------------------------------------------------------ independent reference (the property's formula)
@@ -407,11 +487,47 @@ def _is_lattice(data):
 
 
 def _content(data):
-    """CURRENT content of the live data as plain numbers: ('l', xs, ys, nz, grid) | ('p', seen)"""
+    """CURRENT content of the live data as plain numbers: ('l', xs, ys, nz, grid) | ('p', seen).
+    An element that is not a Particle is shown as None."""
+    from sparkx.Particle import Particle
     if _is_lattice(data):
         return ("l", [float(v) for v in data.x_values_], [float(v) for v in data.y_values_],
                 int(data.grid_.shape[2]), logical_grid(data))
-    return ("p", _seen(list(data)))
+    return ("p", [_seen([p])[0] if isinstance(p, Particle) else None for p in list(data)])
+
+
+def content_ok(content, data=None):
+    """is the content inside the property's domain: only particles with all read attributes set / a grid whose
+    shape is that of the coordinate axes and without NaN"""
+    if content[0] == "p":
+        return all(p is not None and all(v == v for v in p) for p in content[1])
+    _, xs, ys, nz, g = content
+    if len(g) != len(xs) or any(len(pl) != len(ys) for pl in g) or (data is not None and nz != len(data.z_values_)):
+        return False
+    return all(v == v for pl in g for row in pl for v in row)
+
+
+def _observe(ec):
+    """everything observable about an EventCharacteristics object without calling its methods: the documented
+    attributes (identity of the held data, has_lattice_), any further instance attribute, and the full content and
+    representation of the held data (identity of the elements included)."""
+    obs = {}
+    for k, v in sorted(vars(ec).items()):
+        if isinstance(v, (bool, int, float, str, type(None))):
+            obs[k] = repr(v)
+        else:
+            obs[k] = f"{type(v).__name__}@{id(v)}" + (f"/len={len(v)}" if hasattr(v, "__len__") else "")
+    data = getattr(ec, "event_data_", None)
+    if data is not None:
+        try:
+            obs["content"] = repr(_content(data))
+            if _is_lattice(data):
+                obs["stored"] = _stored(data.grid_) + f"/grid@{id(data.grid_)}"
+            else:
+                obs["elements"] = [id(p) for p in list(data)]
+        except Exception as e:
+            obs["content"] = "unreadable:" + type(e).__name__
+    return obs
 
 
 def _content_pts(content, wq):
@@ -471,6 +587,21 @@ def _apply(data, op):
                 lat.grid_ += _pattern_grid(sh, op["co"])
             elif name == "relayout":  # the same densities assigned again in another representation
                 lat.grid_ = _lay(np.array(logical_grid(lat)).reshape(sh), op["layout"])
+            elif name == "l_nan":  # a NaN density at the first / a middle / the last node
+                g = np.array(lat.grid_, dtype=float)
+                g.flat[_pos(op["pos"], g.size)] = np.nan
+                lat.grid_ = g
+            elif name == "l_shape":  # grid_ longer than the coordinate axes: the node loop fails when it gets there
+                g = np.array(lat.grid_, dtype=float)
+                ax = op["axis"] % 3
+                lat.grid_ = np.concatenate([g, np.take(g, [0], axis=ax)], axis=ax)
+            elif name == "heal":
+                want = (len(lat.x_values_), len(lat.y_values_), len(lat.z_values_))
+                g = np.array(lat.grid_, dtype=float)
+                if g.shape != want or np.isnan(g).any():
+                    g = g[:want[0], :want[1], :want[2]].copy()
+                    g[np.isnan(g)] = op["v"]
+                    lat.grid_ = g
             else:
                 return False
             return True
@@ -494,11 +625,62 @@ def _apply(data, op):
             if not isinstance(data, list) or n <= 1:
                 return False
             data.pop(op["idx"] % n)
+        elif name == "p_poison":  # an element of the wrong type at the first / a middle / the last position
+            if n == 0:
+                return False
+            data[_pos(op["pos"], n)] = {"str": "particle", "float": 1.5, "none": None, "dict": {"x": 1.0}}[op["what"]]
+        elif name == "p_unset":  # a particle with an unset (NaN) attribute at the first / a middle / the last position
+            if n == 0:
+                return False
+            setattr(data[_pos(op["pos"], n)], op["attr"], np.nan)
+        elif name == "p_clear":
+            if not isinstance(data, list):
+                return False
+            del data[:]
+        elif name == "heal":
+            from sparkx.Particle import Particle
+            fill = op["part"]
+            for i in range(n):
+                if not isinstance(data[i], Particle):
+                    data[i] = _particles([fill])[0]
+                else:
+                    for attr, v in zip(["E", "charge", "baryon_number", "strangeness", "x", "y"], fill):
+                        if np.isnan(getattr(data[i], attr)):
+                            setattr(data[i], attr, v)
+            if n == 0 and isinstance(data, list):
+                data.append(_particles([fill])[0])
         else:
             return False
         return True
     except Exception:
         return True  # whatever the call changed before raising is read back from the live object
+
+
+def _pos(pos, n):
+    return {"first": 0, "middle": n // 2, "last": n - 1}[pos]
+
+
+def _bad_data(spec):
+    """data that set_event_data / the constructor must reject, as a caller could hand it in by mistake"""
+    what = spec["what"]
+    if what == "tuple":
+        return tuple(_particles(spec["particles"]))
+    if what == "none":
+        return None
+    if what == "int":
+        return 3
+    if what == "dict":
+        return {"particles": _particles(spec["particles"])}
+    if what == "str":
+        return "particles.oscar"
+    if what == "float-array":
+        return np.array([p[4] for p in spec["particles"]], dtype=float)
+    if what == "nested":  # a list of events instead of one event
+        return [_particles(spec["particles"])]
+    pl = _particles(spec["particles"])  # a list with one element of the wrong type
+    bad = {"str": "particle", "float": 1.5, "none": None, "row": list(spec["particles"][0])}[spec["element"]]
+    pl[_pos(spec["pos"], len(pl))] = bad
+    return _container(pl, spec.get("container"))
 
 
 def _agree(a, b, tol):
@@ -509,61 +691,167 @@ def _agree(a, b, tol):
     return cclose(a[1], b[1], tol)
 
 
-def run_session(session, record=None):
-    """Run a history on ONE EventCharacteristics object.  After every compute the result is compared with the
-    formula on the current content and with a fresh object on the same live data.
-    Returns None or (key, what, detail).  With `record` (a list) nothing is judged: every compute is appended as
-    (step, n, m, wq, content, result) for the comparison with the model."""
-    from sparkx.EventCharacteristics import EventCharacteristics
-    data = _build(session["init"])
-    ec = EventCharacteristics(data)
-    since = []  # ops applied since the previous compute on this object
+def form_key(call_in_form, ref, tol, form, method):
+    """a call that misses the formula in call form `form`: if the very same call is right in another of the
+    equivalent forms, the call form is what matters -> key `call-form:<method>:<form>`"""
+    for alt in FORMS:
+        if alt != form and _agree(call_in_form(alt), ("ok", ref), tol):
+            # ... and wrong again when repeated in the original form (not a one-off caused by an earlier call)
+            if not _agree(call_in_form(form), ("ok", ref), tol):
+                return f"call-form:{method}:{form}"
+            return None
+    return None
+
+
+STATS = {}  # what the sessions exercised (flushed into the evidence histogram)
+
+
+def _stat(tag):
+    STATS[tag] = STATS.get(tag, 0) + 1
+
+
+def flush_stats(ctx):
+    for k, v in STATS.items():
+        ctx.count(k, v)
+    STATS.clear()
+
+
+def valid_call(n, m, wq, lat, via):
+    """are the arguments inside the property's quantifier (n >= 1, m omitted or >= 1, a known weight quantity)"""
+    return (type(n) is int and n >= 1 and (m is None or (type(m) is int and m >= 1))
+            and (lat or wq in WQS) and via != "cross")
+
+
+def run_session(session, record=None, _nested=False):
+    """Run a history on long-lived EventCharacteristics objects ('main', and 'other' holding its own data, to see
+    state shared between objects).  Every API call is issued in the call form the op names and caught the way a
+    caller would.  After every call:
+      * a call that RAISED must leave its object exactly as it was (`_observe` before = after),
+      * every call is compared with a fresh object on the same live data (outcome class for failing calls),
+      * a valid call on valid content is compared with the formula on the CURRENT content.
+    Returns None or (key, what, detail).  With `record` (a list) nothing is judged: every valid compute that returned
+    is appended as (step, n, m, wq, content, result) for the comparison with the model."""
+    objs = {}
+    raised_steps = []  # steps whose call raised (on any object)
+
+    def make(name, spec):
+        data = _build(spec)
+        objs[name] = dict(ec=_construct(data, session.get("cform", "pos")), data=data, since=[], failed=[])
+    make("main", session["init"])
+    if session.get("other"):
+        make("other", session["other"])
     for step, op in enumerate(session["ops"]):
         name = op["op"]
+        o = objs.get(op.get("obj", "main")) or objs["main"]
+        ec, data = o["ec"], o["data"]
+        form = op.get("form", "pos")
+        if name == "bad_construct":  # a constructor call that fails; nothing to hold on to, later calls must not care
+            try:
+                _construct(_bad_data(op["data"]), form)
+            except Exception:
+                pass
+            continue
         if name == "set_event_data":
-            if op.get("data") is not None:
-                data = _build(op["data"])
-            ec.set_event_data(data)
-            since.append(name)
+            bad = (op.get("data") or {}).get("kind") == "bad"
+            new = data if op.get("data") is None else (_bad_data(op["data"]) if bad else _build(op["data"]))
+            before = _observe(ec) if record is None else None
+            try:
+                _invoke(ec, "set_event_data", form, event_data=new)
+                o["data"] = new
+                o["since"].append(name)
+            except Exception as e:
+                raised_steps.append((step, "set_event_data"))
+                o["failed"].append("set_event_data")
+                _stat(f"session/failed-call/set_event_data/{type(e).__name__}")
+                if record is None and _observe(ec) != before:
+                    after = _observe(ec)
+                    return ("error-path:object-changed-by-failed-call:set_event_data",
+                            f"step {step}: set_event_data({op['data'].get('what')!r} data) raised {type(e).__name__} but "
+                            f"the object is not what it was before the call: "
+                            f"{ {k: (before.get(k), after.get(k)) for k in set(before) | set(after) if before.get(k) != after.get(k)} }",
+                            dict(step=step, before=before, after=after))
             continue
         if name != "compute":
             if _apply(data, op):
-                since.append(name)
+                o["since"].append(name)
             continue
-        n, m, wq = op["n"], op["m"], op["wq"]
+        n, m, wq, via = op["n"], op["m"], op["wq"], op.get("via", "eccentricity")
         lat = _is_lattice(data)
-
-        def call(obj):
-            if op.get("via") == "direct":
-                return obj.eccentricity_from_lattice(n, m) if lat else obj.eccentricity_from_particles(n, m, wq)
-            return obj.eccentricity(n, m, wq)
-        real = _canon(lambda: call(ec))
+        strict = bool(op.get("strict"))
+        method = ("eccentricity" if via == "eccentricity" else
+                  "eccentricity_from_lattice" if (lat if via == "direct" else not lat) else "eccentricity_from_particles")
+        before = _observe(ec) if record is None else None
+        real, raised = _canon_strict(lambda: _ecc(ec, lat, via, form, n, m, wq), strict)
         content = _content(data)
+        in_domain = valid_call(n, m, wq, lat, via) and content_ok(content, data)
         if record is not None:
-            record.append((step, n, m, wq, content, real))
-            since = []
+            if in_domain and not raised:
+                record.append((step, n, m, wq, content, real))
+            if raised:
+                o["failed"].append(method)
+            else:
+                o["since"], o["failed"] = [], []
             continue
-        fresh = _canon(lambda: call(EventCharacteristics(data)))
-        k = radial_power(n, m)
-        ref, cond = ref_ecc(_content_pts(content, wq), n, k)
         kind = "lattice" if lat else "particles"
-        scale = cond if math.isfinite(cond) and cond <= 1e4 else max([1.0] + [abs(r[1]) for r in (real, fresh) if r[0] == "ok"])
-        tol = 1e-9 * max(1.0, scale)
-        detail = dict(step=step, call=dict(n=n, m=m, weight_quantity=wq, via=op.get("via", "eccentricity")),
-                      same_object=str(real), fresh_object=str(fresh), formula_on_current_content=str(ref),
-                      ops_since_previous_call=list(since), content=content)
-        if not _agree(real, fresh, tol):
-            last = since[-1] if since else "compute"
-            return (f"instance-reuse-{kind}-after-{last}",
-                    f"step {step}: eccentricity({n},{m},{wq!r}) on the long-lived object gives {real}, a fresh "
-                    f"EventCharacteristics on the same {kind} data gives {fresh} (formula on the current content: {ref!r}); "
-                    f"ops since the previous call on this object: {since or ['(none)']}", detail)
-        if ref is not None and cond <= 1e4 and not _agree(real, ("ok", ref), tol):
-            mk = "m-given" if m is not None else ("m-default-n1" if n == 1 else "m-default")
-            key = "formula:lattice" + _stored(data.grid_) if lat else f"formula:particles:{wq}:{mk}"
-            return (key, f"step {step}: eccentricity({n},{m},{wq!r}) = {real} but the formula on the current content gives {ref!r} "
-                         f"(fresh object: {fresh})", detail)
-        since = []
+        _stat(f"session/call-form/{form}")
+        if raised:
+            _stat(f"session/failed-call/{method}/{real[1]}{'/warnings-as-errors' if strict else ''}")
+        elif in_domain and (o["failed"] or (op.get("obj") == "other" and objs["main"]["failed"])):
+            _stat("session/valid-call-after-failed-call" + ("/other-object" if op.get("obj") == "other" else ""))
+        shown = f"{method}({n!r},{m!r},{wq!r}) [call form {form}{', warnings as errors' if strict else ''}]"
+        if raised:
+            after = _observe(ec)
+            if after != before:
+                return (f"error-path:object-changed-by-failed-call:{method}",
+                        f"step {step}: {shown} failed with {real[1]} but the object is not what it was before the call: "
+                        f"{ {k: (before.get(k), after.get(k)) for k in set(before) | set(after) if before.get(k) != after.get(k)} }",
+                        dict(step=step, before=before, after=after))
+        detail = dict(step=step, call=dict(n=n, m=m, weight_quantity=wq, via=via, form=form, strict=strict, obj=op.get("obj", "main")),
+                      same_object=str(real), ops_since_previous_call=list(o["since"]),
+                      failed_calls_since_previous_result=list(o["failed"]), content=content)
+        # a fresh object on the same live data (only constructible when every element still is a Particle)
+        constructible = content[0] == "l" or all(p is not None for p in content[1])
+        if constructible:
+            # (same call form, so that a difference can only come from the object's history)
+            fresh, _ = _canon_strict(lambda: _ecc(_construct(data, "kw" if session.get("cform", "pos") == "pos" else "pos"),
+                                                  lat, via, form, n, m, wq), strict)
+            detail["fresh_object"] = str(fresh)
+            scale = max([1.0] + [abs(r[1]) for r in (real, fresh) if r[0] == "ok"])
+            ref = cond = None
+            if in_domain:
+                ref, cond = ref_ecc(_content_pts(content, wq), n, radial_power(n, m))
+                if math.isfinite(cond) and cond <= 1e4:
+                    scale = cond
+                detail["formula_on_current_content"] = str(ref)
+            tol = 1e-9 * max(1.0, scale)
+            if not _agree(real, fresh, tol):
+                if o["failed"]:
+                    key = f"instance-reuse-after-error-{kind}-{o['failed'][-1]}"
+                else:
+                    key = f"instance-reuse-{kind}-after-{o['since'][-1] if o['since'] else 'compute'}"
+                return (key, f"step {step}: {shown} on the long-lived object gives {real}, a fresh EventCharacteristics on the "
+                             f"same {kind} data gives {fresh} (formula on the current content: {ref!r}); ops since the previous "
+                             f"call on this object: {o['since'] or ['(none)']}; calls that failed on it since its previous "
+                             f"result: {o['failed'] or ['(none)']}", detail)
+            if in_domain and ref is not None and cond <= 1e4 and not _agree(real, ("ok", ref), tol):
+                mk = "m-given" if m is not None else ("m-default-n1" if n == 1 else "m-default")
+                key = "formula:lattice" + _stored(data.grid_) if lat else f"formula:particles:{wq}:{mk}"
+                key = form_key(lambda f: _canon_strict(lambda: _ecc(_construct(data), lat, via, f, n, m, wq), strict)[0],
+                               ref, tol, form, method) or key
+                if raised_steps and not _nested and not key.startswith("call-form"):
+                    # fresh objects are wrong too.  Is it because of the calls that failed earlier (state shared
+                    # between objects)?  Run the same history without them.
+                    drop = {i for i, _ in raised_steps}
+                    sub = dict(session, ops=[o_ for i, o_ in enumerate(session["ops"][:step + 1]) if i not in drop])
+                    if run_session(sub, _nested=True) is None:
+                        key = f"instance-reuse-after-error-shared-state-{kind}-{raised_steps[-1][1]}"
+                return (key, f"step {step}: {shown} = {real} but the formula on the current content gives {ref!r} "
+                             f"(fresh object: {fresh})", detail)
+        if raised:
+            raised_steps.append((step, method))
+            o["failed"].append(method)
+        else:
+            o["since"], o["failed"] = [], []
     return None
 
 
@@ -579,9 +867,71 @@ def gen_spec(rng, kind=None):
     return dict(kind="lattice", extent=ext, shape=shape, grid=grid, layout=gen_layout(rng), axes=gen_axes_layout(rng))
 
 
-def gen_compute(rng):
+def gen_compute(rng, obj="main"):
     n, m = gen_nm(rng)
-    return dict(op="compute", n=n, m=m, wq=rng.choice(WQS), via="direct" if rng.random() < 0.2 else "eccentricity")
+    op = dict(op="compute", n=n, m=m, wq=rng.choice(WQS), via="direct" if rng.random() < 0.2 else "eccentricity",
+              form=rng.choice(FORMS))
+    if rng.random() < 0.15:
+        op["strict"] = True  # warnings as errors: harmless on a call that has no reason to warn
+    if obj != "main":
+        op["obj"] = obj
+    return op
+
+
+def gen_bad_compute(rng):
+    """a call that is expected to be rejected: invalid value or type of an argument, unknown weight name,
+    the method of the other variant"""
+    op = gen_compute(rng)
+    what = rng.choice(["n", "n", "m", "m", "wq", "wq", "n-type", "m-type", "cross"])
+    if what == "n":
+        op["n"] = rng.choice([0, -1, -3])
+    elif what == "m":
+        op["m"] = rng.choice([0, -1, -2])
+    elif what == "wq":
+        op["wq"] = rng.choice(["Energy", "pt", "", "mass", None])
+    elif what == "n-type":
+        op["n"] = rng.choice(["2", None, [2]])
+    elif what == "m-type":
+        op["m"] = rng.choice(["3", [1]])
+    else:
+        op["via"] = "cross"
+    return op
+
+
+def gen_bad_data(rng):
+    what = rng.choice(["tuple", "none", "int", "dict", "str", "float-array", "nested", "element", "element", "element"])
+    spec = dict(kind="bad", what=what, particles=gen_parts(rng, 2, 5, positive=True))
+    if what == "element":
+        spec.update(element=rng.choice(["str", "float", "none", "row"]), pos=rng.choice(["first", "middle", "last"]),
+                    container=rng.choice(["list", "ndarray"]))
+    return spec
+
+
+def gen_error_block(rng, kind):
+    """ops around calls that fail at different points of their work, then (mostly) a repair of the data"""
+    r = rng.random()
+    fill = gen_parts(rng, 1, 1, positive=True)[0]
+    heal = dict(op="heal", part=fill, v=rng.randint(1, 20) / 4.0)
+    if r < 0.3:  # rejected up front (or at the first element, for the weight name)
+        return [gen_bad_compute(rng) for _ in range(rng.randint(1, 2))]
+    if r < 0.5:  # data rejected by set_event_data / the constructor, up front or at the offending element
+        op = dict(op="set_event_data" if rng.random() < 0.75 else "bad_construct", data=gen_bad_data(rng), form=rng.choice(FORMS))
+        return [op]
+    if r < 0.62:  # the quotient does not exist: fails (or warns) at the very end of the work
+        z = dict(op="reset") if kind == "lattice" else dict(op="p_clear")
+        c = gen_compute(rng)
+        c["strict"] = rng.random() < 0.6
+        return [z, c, heal] if kind != "lattice" else [z, c, gen_mutation(rng, kind)]
+    pos = rng.choice(["first", "middle", "last"])
+    if kind == "lattice":
+        poison = rng.choice([dict(op="l_nan", pos=pos), dict(op="l_shape", axis=rng.randint(0, 2))])
+    else:
+        poison = rng.choice([dict(op="p_poison", pos=pos, what=rng.choice(["str", "float", "none", "dict"])),
+                             dict(op="p_unset", pos=pos, attr=rng.choice(P_ATTRS))])
+    ops = [poison] + [gen_compute(rng) for _ in range(rng.randint(1, 2))]
+    if rng.random() < 0.85:
+        ops.append(heal)
+    return ops
 
 
 def gen_mutation(rng, kind):
@@ -620,30 +970,46 @@ def gen_mutation(rng, kind):
 def gen_session(rng):
     init = gen_spec(rng)
     kind = init["kind"]
+    other = gen_spec(rng) if rng.random() < 0.5 else None
     ops = []
     for _ in range(rng.randint(2, 4)):
         ops += [gen_compute(rng) for _ in range(rng.randint(1, 2))]
         r = rng.random()
-        if r < 0.2:
+        if r < 0.17:
             spec = gen_spec(rng)
             kind = spec["kind"]
-            ops.append(dict(op="set_event_data", data=spec))
-        elif r < 0.27:
-            ops.append(dict(op="set_event_data", data=None))  # hand the same object in again
+            ops.append(dict(op="set_event_data", data=spec, form=rng.choice(FORMS)))
+        elif r < 0.23:
+            ops.append(dict(op="set_event_data", data=None, form=rng.choice(FORMS)))  # hand the same object in again
+        elif r < 0.55:
+            ops += gen_error_block(rng, kind)
+            if other and rng.random() < 0.6:  # does the failed call show on another object?
+                ops.append(gen_compute(rng, obj="other"))
         else:
             ops += [gen_mutation(rng, kind) for _ in range(rng.randint(1, 3))]
+        if other and rng.random() < 0.2:
+            ops.append(gen_compute(rng, obj="other"))
     ops.append(gen_compute(rng))
-    return dict(kind="session", init=init, ops=ops)
+    s = dict(kind="session", init=init, ops=ops, cform=rng.choice(["pos", "kw"]))
+    if other:
+        s["other"] = other
+    return s
 
 
 def shrink_session(session, key):
     """delta-debugging on the history (ops, then the particles of the initial / swapped-in lists); a candidate is
     kept when it still fails in the same class (same key up to the name of the last op)."""
-    cls = key.rsplit("-after-", 1)[0]
+    def cls_of(k):
+        if k.startswith("instance-reuse-after-error"):
+            return "instance-reuse-after-error"
+        if k.startswith("error-path:") or k.startswith("call-form:"):
+            return k
+        return k.rsplit("-after-", 1)[0]
+    cls = cls_of(key)
 
     def fails(s):
         r = run_session(s)
-        return r is not None and r[0].rsplit("-after-", 1)[0] == cls
+        return r is not None and cls_of(r[0]) == cls
     cur = json.loads(json.dumps(session))
     r = run_session(cur)
     if r and "step" in r[2]:
@@ -656,7 +1022,11 @@ def shrink_session(session, key):
             if cand["ops"] and fails(cand):
                 cur = cand
                 changed = True
-        specs = [cur["init"]] + [o["data"] for o in cur["ops"] if o["op"] == "set_event_data" and o.get("data")]
+        if cur.get("other") and fails({k: v for k, v in cur.items() if k != "other"}):
+            del cur["other"]
+            changed = True
+        specs = [cur["init"]] + ([cur["other"]] if cur.get("other") else []) + \
+            [o["data"] for o in cur["ops"] if o["op"] == "set_event_data" and o.get("data") and o["data"]["kind"] != "bad"]
         for spec in specs:
             if spec["kind"] == "lattice":
                 for field in ("axes", "layout"):
@@ -699,6 +1069,13 @@ def correspond(ctx):
                 "non-contiguous slice of a bigger array, float32, int64, read-only (and combinations); coordinate arrays as "
                 "reversed / strided / read-only views; particle containers list / object ndarray (plain, strided, reversed view, "
                 "read-only); model and formula are always fed the logical content read element by element (grid_[i,j,k]).  "
+                "Call forms: every public call is issued all-positional in the documented order / all keywords / mixed / with "
+                "defaults omitted (keyword or positional).  Error paths in sessions: calls rejected up front (n, m of wrong "
+                "value or type, unknown weight name, the other variant's method), data rejected by set_event_data / the "
+                "constructor (wrong container, wrong element at first / middle / last position), data poisoned in place "
+                "(wrong-type element, unset attribute, NaN density, grid_ longer than the axes, emptied list, all-zero grid) "
+                "so that the call fails midway or at its end, warnings as errors; a failed call must leave the object as it "
+                "was, later valid calls (same object and a second long-lived object) are judged like any other.  "
                 "Every case is evaluated by the hand model (ops p / l) AND by the functions generated from the current "
                 "source (ops gp / gl, the weight string handed to the generated if-chain as it is); both must agree with the code")
     ctx.assumptions.append("C18: np.arctan2/np.cos/np.sin/float ** are compared with C libm atan2/cos/sin/pow at 1e-9 "
@@ -727,7 +1104,7 @@ def correspond(ctx):
             seen = _seen(plist)
             container = rng.choice(CONTAINERS) if rng.random() < 0.3 else "list"
             lines.append(line_particles(n, m, wq, seen))
-            meta.append(("p", n, m, wq, (parts, container), seen, neutral, None))
+            meta.append(("p", n, m, wq, (parts, container, rng.choice(FORMS), rng.choice(["eccentricity", "direct"])), seen, neutral, None))
         else:
             ext, shape, grid = gen_lattice(rng)
             if rng.random() < 0.05:
@@ -739,7 +1116,7 @@ def correspond(ctx):
             ys = [float(v) for v in lat.y_values_]
             g = logical_grid(lat)  # what grid_[i, j, k] holds in this representation
             lines.append(line_lattice(n, m, xs, ys, shape[2], g))
-            meta.append(("l", n, m, None, (ext, shape, grid, layout, axl), (xs, ys, g), False, None))
+            meta.append(("l", n, m, None, (ext, shape, grid, layout, axl, rng.choice(FORMS), rng.choice(["eccentricity", "direct"])), (xs, ys, g), False, None))
     # sessions: every call of a long-lived object is compared with the model on the content held at that moment
     for si in range(ctx.n(60, 1500)):
         session = gen_session(rng)
@@ -749,11 +1126,11 @@ def correspond(ctx):
             where = dict(session=session, step=step)
             if content[0] == "p":
                 lines.append(line_particles(n, m, wq, content[1]))
-                meta.append(("p", n, m, wq, (content[1], "list"), content[1], False, (real, where)))
+                meta.append(("p", n, m, wq, (content[1], "list", None, None), content[1], False, (real, where)))
             else:
                 _, xs, ys, nz, g = content
                 lines.append(line_lattice(n, m, xs, ys, nz, g))
-                meta.append(("l", n, m, None, (None, [len(xs), len(ys), nz], g, None, None), (xs, ys, g), False, (real, where)))
+                meta.append(("l", n, m, None, (None, [len(xs), len(ys), nz], g, None, None, None, None), (xs, ys, g), False, (real, where)))
     # every case goes to the hand model (`p` / `l`) and to the functions generated from the source (`gp` / `gl`)
     outs = common.run_driver("C18", lines + ["g" + l for l in lines])
     gouts = outs[len(lines):]
@@ -762,21 +1139,26 @@ def correspond(ctx):
         model = parse_model(out)
         gen = parse_model(gout)
         if kind == "p":
-            inp, container = inp
-            real = pre[0] if pre else real_particles(inp, n, m, wq, container=container)
+            inp, container, form, via = inp
+            real = pre[0] if pre else real_particles(inp, n, m, wq, via=via, container=container, form=form)
+            if form:
+                ctx.count("call-form/" + form)
             k = radial_power(max(n, 1), m if (m is None or m >= 1) else 1)
             pts = [(1.0 if wq == "number" else p[WIDX.get(wq, 0)], p[4], p[5]) for p in seen]
             _, cond = ref_ecc(pts, max(n, 1), k)
             off = sum(1 for p in seen if p[4] != 0.0 or p[5] != 0.0)
             nontriv = real[0] == "ok" and off >= 2
             canon = ("p", n, m, wq, tuple(tuple(p) for p in seen))
-            sample = dict(op="particles", n=n, m=m, weight_quantity=wq, particles=inp, container=container, code=str(real), model=out)
+            sample = dict(op="particles", n=n, m=m, weight_quantity=wq, particles=inp, container=container, call_form=form,
+                          via=via, code=str(real), model=out)
             if container != "list":
                 ctx.count("representation/particles/" + container)
             tag = f"p/{wq if wq in WQS else 'unknown-wq'}/n={n if n >= 1 else '<1'}/m={'default' if m is None else ('given' if m >= 1 else '<1')}/{real[0]}{':' + real[1] if real[0] == 'err' else ''}"
         else:
-            ext, shape, grid, layout, axl = inp
-            real = pre[0] if pre else real_lattice(ext, shape, grid, n, m, layout, axl)
+            ext, shape, grid, layout, axl, form, via = inp
+            real = pre[0] if pre else real_lattice(ext, shape, grid, n, m, layout, axl, form=form, via=via)
+            if form:
+                ctx.count("call-form/" + form)
             xs, ys, g = seen
             pts = [(g[i][j][l], xs[i], ys[j]) for i in range(shape[0]) for j in range(shape[1]) for l in range(shape[2])]
             _, cond = ref_ecc(pts, max(n, 1), radial_power(max(n, 1), m if (m is None or m >= 1) else 1))
@@ -838,50 +1220,53 @@ def check_particles(case):
         return None  # the quotient does not exist / is ill-conditioned: outside the statement
     tol = 1e-9 * max(1.0, cond)
     mk = "m-given" if m is not None else ("m-default-n1" if n == 1 else "m-default")
+    form = case.get("form", "pos")
     container = case.get("container", "list")
     ck = "" if container == "list" else ":container=" + container
-    base = real_particles(parts, n, m, wq, container=container)
+    base = real_particles(parts, n, m, wq, container=container, form=form)
     if base[0] != "ok":
-        return (f"formula:particles:{wq}:{mk}{ck}", f"eccentricity({n},{m},{wq!r}) gives {base} where the formula gives {ref!r}",
+        fk = form_key(lambda f: real_particles(parts, n, m, wq, container=container, form=f), ref, tol, form, "eccentricity")
+        return (fk or f"formula:particles:{wq}:{mk}{ck}", f"eccentricity({n},{m},{wq!r}) [call form {form}] gives {base} where the formula gives {ref!r}",
                 dict(relation="formula", expected=str(ref), observed=str(base)))
     e = base[1]
     if not cclose(e, ref, tol):
-        return (f"formula:particles:{wq}:{mk}{ck}",
-                f"eccentricity({n},{m},{wq!r}) = {e!r} but -sum(w r^{k} e^(i{n}phi))/sum(w r^{k}) = {ref!r}",
+        fk = form_key(lambda f: real_particles(parts, n, m, wq, container=container, form=f), ref, tol, form, "eccentricity")
+        return (fk or f"formula:particles:{wq}:{mk}{ck}",
+                f"eccentricity({n},{m},{wq!r}) [call form {form}] = {e!r} but -sum(w r^{k} e^(i{n}phi))/sum(w r^{k}) = {ref!r}",
                 dict(relation="formula", expected=str(ref), observed=str(e)))
-    d = real_particles(parts, n, m, wq, via="from_particles")
+    d = real_particles(parts, n, m, wq, via="from_particles", form=form)
     if d[0] != "ok" or d[1] != e:
         return ("dispatch:particles", f"eccentricity() = {e!r} differs from eccentricity_from_particles() = {d}",
                 dict(relation="dispatch", expected=str(e), observed=str(d)))
     if m is None:
-        d = real_particles(parts, n, k, wq)
+        d = real_particles(parts, n, k, wq, form=form)
         if d[0] != "ok" or not cclose(d[1], e, tol):
             return (f"m-default:{'n1' if n == 1 else 'n>1'}", f"eccentricity({n}) = {e!r} but eccentricity({n}, m={k}) = {d}",
                     dict(relation="m-default", expected=str(e), observed=str(d)))
     if all(weight_of(wq, p) >= 0 for p in parts) and abs(e) > 1 + 1e-9:
         return (f"bound:{wq}", f"|eccentricity| = {abs(e)!r} > 1 with non-negative weights",
                 dict(relation="bound", expected="<= 1", observed=abs(e)))
-    r = real_particles(_rot(parts, alpha), n, m, wq)
+    r = real_particles(_rot(parts, alpha), n, m, wq, form=form)
     exp = cmath.exp(1j * n * alpha) * e
     if r[0] != "ok" or not cclose(r[1], exp, tol):
         return ("rotation", f"rotating positions by {alpha!r}: got {r}, expected e^(i n alpha) eps = {exp!r}",
                 dict(relation="rotation", expected=str(exp), observed=str(r)))
-    r = real_particles([[p[0], p[1], p[2], p[3], -p[4], p[5]] for p in parts], n, m, wq)
+    r = real_particles([[p[0], p[1], p[2], p[3], -p[4], p[5]] for p in parts], n, m, wq, form=form)
     exp = (-1) ** n * e.conjugate()
     if r[0] != "ok" or not cclose(r[1], exp, tol):
         return ("reflection", f"x -> -x: got {r}, expected (-1)^n conj(eps) = {exp!r}",
                 dict(relation="reflection", expected=str(exp), observed=str(r)))
-    r = real_particles([[p[0], p[1], p[2], p[3], s * p[4], s * p[5]] for p in parts], n, m, wq)
+    r = real_particles([[p[0], p[1], p[2], p[3], s * p[4], s * p[5]] for p in parts], n, m, wq, form=form)
     if r[0] != "ok" or not cclose(r[1], e, tol):
         return ("scale-positions", f"positions scaled by {s!r}: got {r}, expected {e!r}",
                 dict(relation="scale-positions", expected=str(e), observed=str(r)))
     if wq != "number":
         ci = c if wq == "energy" else float(int(c) or 2)  # charge-like getters truncate to int
-        r = real_particles([[ci * p[0], ci * p[1], ci * p[2], ci * p[3], p[4], p[5]] for p in parts], n, m, wq)
+        r = real_particles([[ci * p[0], ci * p[1], ci * p[2], ci * p[3], p[4], p[5]] for p in parts], n, m, wq, form=form)
         if r[0] != "ok" or not cclose(r[1], e, tol):
             return (f"scale-weights:{wq}", f"weights scaled by {ci!r}: got {r}, expected {e!r}",
                     dict(relation="scale-weights", expected=str(e), observed=str(r)))
-    r = real_particles([parts[i] for i in perm], n, m, wq)
+    r = real_particles([parts[i] for i in perm], n, m, wq, form=form)
     if r[0] != "ok" or not cclose(r[1], e, tol):
         return ("permutation", f"particles reordered by {perm}: got {r}, expected {e!r}",
                 dict(relation="permutation", expected=str(e), observed=str(r)))
@@ -891,6 +1276,7 @@ def check_particles(case):
 def check_lattice(case):
     ext, shape, grid, n, m = case["extent"], case["shape"], case["grid"], case["n"], case["m"]
     k = radial_power(n, m)
+    form = case.get("form", "pos")
     layout, axl = case.get("layout", "C"), case.get("axes", "C")
     lat = _lattice(ext, shape, grid, layout, axl)
     xs, ys = [float(v) for v in lat.x_values_], [float(v) for v in lat.y_values_]
@@ -902,13 +1288,14 @@ def check_lattice(case):
     if ref is None or cond > 1e4:
         return None
     tol = 1e-9 * max(1.0, cond)
-    base = real_lattice(ext, shape, grid, n, m, layout, axl)
+    base = real_lattice(ext, shape, grid, n, m, layout, axl, form=form)
     if base[0] != "ok" or not cclose(base[1], ref, tol):
-        return ("formula:lattice" + lk, f"lattice eccentricity({n},{m}) [grid_ layout {layout}, axes {axl}] = {base} but the formula over the nodes weighted by density gives {ref!r}",
+        fk = form_key(lambda f: real_lattice(ext, shape, grid, n, m, layout, axl, form=f), ref, tol, form, "eccentricity")
+        return (fk or "formula:lattice" + lk, f"lattice eccentricity({n},{m}) [grid_ layout {layout}, axes {axl}] = {base} but the formula over the nodes weighted by density gives {ref!r}",
                 dict(relation="lattice-formula", expected=str(ref), observed=str(base)))
     e = base[1]
     # the same nodes as particles (energy = density)
-    r = real_particles([[w, 0.0, 0.0, 0.0, x, y] for w, x, y in pts], n, m, "energy")
+    r = real_particles([[w, 0.0, 0.0, 0.0, x, y] for w, x, y in pts], n, m, "energy", form=form)
     if r[0] != "ok" or not cclose(r[1], e, tol):
         return ("lattice-vs-particles", f"lattice gives {e!r}, the particle function on its nodes gives {r}",
                 dict(relation="lattice-vs-particles", expected=str(e), observed=str(r)))
@@ -918,18 +1305,18 @@ def check_lattice(case):
     # reflected lattice: x axis [-x1, -x0], planes in reverse order
     # (np.linspace with a single point yields the lower limit only)
     mext = ([-ext[1], -ext[0]] if shape[0] > 1 else [-ext[0], -ext[0] + 1.0]) + ext[2:]
-    r = real_lattice(mext, shape, grid[::-1], n, m, dl, axl)
+    r = real_lattice(mext, shape, grid[::-1], n, m, dl, axl, form=form)
     exp = (-1) ** n * e.conjugate()
     if r[0] != "ok" or not cclose(r[1], exp, tol):
         return ("reflection:lattice" + lk, f"lattice mirrored in x: got {r}, expected {exp!r}",
                 dict(relation="reflection", expected=str(exp), observed=str(r)))
     c = case["wscale"]
-    r = real_lattice(ext, shape, [[[c * v for v in row] for row in plane] for plane in grid], n, m, dl, axl)
+    r = real_lattice(ext, shape, [[[c * v for v in row] for row in plane] for plane in grid], n, m, dl, axl, form=form)
     if r[0] != "ok" or not cclose(r[1], e, tol):
         return ("scale-weights:lattice" + lk, f"densities scaled by {c!r}: got {r}, expected {e!r}",
                 dict(relation="scale-weights", expected=str(e), observed=str(r)))
     s = case["scale"]
-    r = real_lattice([s * v for v in ext], shape, grid, n, m, dl, axl)
+    r = real_lattice([s * v for v in ext], shape, grid, n, m, dl, axl, form=form)
     if r[0] != "ok" or not cclose(r[1], e, tol):
         return ("scale-positions:lattice" + lk, f"lattice extent scaled by {s!r}: got {r}, expected {e!r}",
                 dict(relation="scale-positions", expected=str(e), observed=str(r)))
@@ -953,14 +1340,14 @@ def gen_case(rng):
         perm = list(range(len(parts)))
         rng.shuffle(perm)
         return dict(kind="particles", particles=parts, n=n, m=m, wq=wq,
-                    container=rng.choice(CONTAINERS) if rng.random() < 0.3 else "list",
+                    container=rng.choice(CONTAINERS) if rng.random() < 0.3 else "list", form=rng.choice(FORMS),
                     alpha=rng.choice([rng.uniform(-math.pi, math.pi), math.pi / 2, math.pi, -math.pi / 3, 2.0 * math.pi / 5]),
                     scale=rng.choice([0.5, 2.0, 4.0, rng.uniform(0.1, 10.0)]),
                     wscale=rng.choice([2.0, 3.0, 0.5, rng.uniform(0.2, 5.0), -2.0]), perm=perm)
     ext, shape, grid = gen_lattice(rng)
     n, m = gen_nm(rng)
     return dict(kind="lattice", extent=ext, shape=shape, grid=grid, n=n, m=m,
-                layout=gen_layout(rng), axes=gen_axes_layout(rng),
+                layout=gen_layout(rng), axes=gen_axes_layout(rng), form=rng.choice(FORMS),
                 scale=rng.choice([0.5, 2.0, rng.uniform(0.1, 10.0)]), wscale=rng.choice([2.0, 0.5, rng.uniform(0.2, 5.0)]))
 
 
@@ -1034,6 +1421,7 @@ def search(ctx, budget_s):
             found.add(r2[0])
             ctx.violation(r2[0], r2[1], dict(input=small, detail=r2[2], how_to_replay="./check C18 --replay <this file>"))
     ctx.cov["oracle_cases"] = n
+    flush_stats(ctx)
 
 
 def replay(ctx, path):
